@@ -14,13 +14,14 @@
     and the hash group of a file: C04 gets it from ComputeHashInfo over a real signature
     ([group_of groups i]), C05 defines it as the hashes of the blocks of the signed content.
 
-    Agreement: same group ([group_models_agree]) and same wound list whenever the file on disk
-    is not LONGER than the signed one.  Difference found: for a longer file Sig/Validate.v emits
-    the size wound [(written, size)] with start > end - the code BEFORE repo commit ccb6315
-    "fix: validator size wound had start > end ..." - while Val/FileVal.v (and the code now)
-    swaps the two ([validate_file_differs_on_longer_file]).  C04 only ever evaluates
-    [validate_file] on pristine copies (written = size), where the branch is dead; the C05
-    model is the faithful one.  Proofs only. *)
+    Agreement: same group ([group_models_agree]) and same wound list for EVERY content of the
+    file on disk - shorter than, as long as, or longer than the signed one.  (History: for a
+    longer file Sig/Validate.v used to emit the size wound [(written, size)] with start > end -
+    the code BEFORE repo commit ccb6315 "fix: validator size wound had start > end ..." - while
+    Val/FileVal.v and the code swap the two; the former example
+    [validate_file_differs_on_longer_file] recorded that.  Sig/Validate.v was repaired to follow
+    the code; the example, now false, is deleted and replaced by
+    [validate_file_longer_file_example], where both models give (2, 3).)  Proofs only. *)
 From Coq Require Import ZifyBool ZifyNat ZifyN.
 From Wharf Require Import Base.Prelude Val.Drip Val.VPool.
 From Wharf Require Val.FileVal Sig.Sign Sig.SigFile Sig.HashInfo Sig.HashInfoProofs Sig.Validate.
@@ -60,20 +61,21 @@ Section ValidateAgree.
     unfold SSg.sign_file. rewrite hash_blocks_pairs. reflexivity.
   Qed.
 
-  (** [doOne] on one file whose content reaches the pool in one Write: the same wounds, as long
-      as the file on disk is not longer than the signed file *)
+  (** [doOne] on one file whose content reaches the pool in one Write: the same wounds, whatever
+      the length of the file on disk *)
   Lemma validate_file_agrees (groups : list (option (list (SSg.blockhash H)))) (i : nat) (signed content : list N) :
     SV.group_of groups i = FV.group_of (Z.of_N bs) bhash signed ->
-    (length content <= length signed)%nat ->
     SV.validate_file bs weak strong seqb maxWound groups i (N.of_nat (length signed)) [content] =
     FV.file_wounds (Z.of_N bs) maxWound bhash beqb (Z.of_nat i) signed (FV.OFile content).
   Proof.
-    intros Hg Hle. unfold SV.validate_file, FV.file_wounds.
+    intros Hg. unfold SV.validate_file, FV.file_wounds.
     rewrite Hg. cbn [concat]. rewrite app_nil_r. rewrite !nat_N_Z.
     destruct (N.eqb_spec (N.of_nat (length content)) (N.of_nat (length signed))) as [E|E];
       destruct (Z.eqb_spec (Z.of_nat (length content)) (Z.of_nat (length signed))) as [E'|E']; try lia.
     - apply app_nil_r.
-    - rewrite Z.min_l, Z.max_r by lia. reflexivity.
+    - destruct (N.ltb_spec (N.of_nat (length signed)) (N.of_nat (length content))) as [Hlt|Hge]; rewrite !nat_N_Z.
+      + rewrite Z.min_r, Z.max_l by lia. reflexivity.
+      + rewrite Z.min_l, Z.max_r by lia. reflexivity.
   Qed.
 
   (** ... for any slicing of the content into Write calls on the C04 side (C05 fixes one
@@ -81,23 +83,22 @@ Section ValidateAgree.
       quantify over the slicing *)
   Theorem validate_file_models_agree_lemma (files : list (list N)) (i : nat) (signed content : list N) :
     nth_error files i = Some signed ->
-    (length content <= length signed)%nat ->
     SV.validate_file bs weak strong seqb maxWound (HashInfoProofs.groups_from bs weak strong 0 files) i
                      (N.of_nat (length signed)) [content] =
     FV.file_wounds (Z.of_N bs) maxWound bhash beqb (Z.of_nat i) signed (FV.OFile content).
   Proof.
-    intros Hn Hle. apply validate_file_agrees; [|assumption]. apply group_models_agree_lemma. assumption.
+    intros Hn. apply validate_file_agrees. apply group_models_agree_lemma. assumption.
   Qed.
 End ValidateAgree.
 
 (** block size 2, signed file [1;2], file on disk [1;2;3]: the healthy marker of block 0, the (empty) wound of
-    the unsigned block 1, then the size wound - (3, 2) in the C04 transcription, (2, 3) in the C05 transcription and in Go *)
-Lemma validate_file_differs_on_longer_file_lemma :
+    the unsigned block 1, then the size wound (2, 3) - smaller bound first - in both transcriptions, as in Go *)
+Lemma validate_file_longer_file_example :
   let weak := fun _ : list N => 0%N in
   let strong := fun b : list N => b in
   let files := [[1; 2]%N] in
   SV.validate_file 2 weak strong nlist_eqb 100 (HashInfoProofs.groups_from 2 weak strong 0 files) 0 2 [[1; 2; 3]%N] =
-    [mkwound WClosed 0 0 2; mkwound WFile 0 2 2; mkwound WFile 0 3 2] /\
+    [mkwound WClosed 0 0 2; mkwound WFile 0 2 2; mkwound WFile 0 2 3] /\
   FV.file_wounds 2 100 (SV.block_hash weak strong) (SV.pair_eqb nlist_eqb) 0 [1; 2]%N (FV.OFile [1; 2; 3]%N) =
     [mkwound WClosed 0 0 2; mkwound WFile 0 2 2; mkwound WFile 0 2 3].
 Proof. split; vm_compute; reflexivity. Qed.
